@@ -33,6 +33,9 @@ pub use self::fixed::FixedOffset;
 pub(crate) mod local;
 #[cfg(feature = "clock")]
 pub use self::local::Local;
+#[cfg(all(unix, feature = "clock", chrono_verif))]
+#[doc(hidden)]
+pub use self::local::verif_tz;
 
 pub(crate) mod utc;
 pub use self::utc::Utc;
